@@ -102,7 +102,7 @@ RefChan0 == [patch |-> 0, msb |-> 0, lsb |-> 0, perc |-> FALSE, pedal |-> FALSE,
 RefInit(chans, bl, nc, dev) ==
   [ch |-> [c \in chans |-> RefChan0], mode |-> ModeXG, dev |-> dev, master |-> 127,
    down |-> {}, rel |-> {}, hp |-> {}, cap |-> {}, life |-> <<>>, keys |-> {},
-   bl |-> bl, nc |-> nc, polyOK |-> TRUE, quiet |-> 0]
+   bl |-> bl, nc |-> nc, polyOK |-> TRUE, quiet |-> 0, extra |-> 0]
 
 Held(h) == h.down \cup h.rel
 IsPercChan(h, chn) == (chn % 16 = 9) \/ h.ch[chn].perc
@@ -122,6 +122,8 @@ Release(h, p) ==
            byPedal == h.ch[p[1]].pedal
            byCap == p \in h.cap
        IN [h EXCEPT !.down = @ \ {p},
+                    \* a pair re-struck while an earlier instance is still held occupies one more voice
+                    !.extra = IF (byPedal \/ byCap) /\ p \in h.rel THEN @ + 1 ELSE @,
                     !.rel  = IF byPedal \/ byCap THEN @ \cup {p} ELSE @,
                     !.hp   = IF byPedal THEN @ \cup {p} ELSE @,
                     !.life = IF li = 0 THEN @ ELSE RemoveAt(@, li)]
@@ -255,8 +257,9 @@ AllReleased(h) == h.keys = {} /\ \A c \in DOMAIN h.ch : ~h.ch[c].pedal /\ ~h.ch[
 RefStep(h, ev, nc) ==
   LET h1 == RefStep0(h, ev)
       rebuild == ev.e \in {"SetNumChips", "SwitchEmu", "SetRunAtPcm", "SetChipType", "OpenBank", "Reset"}
-  IN [h1 EXCEPT !.nc = nc,
-                !.polyOK = (IF rebuild THEN TRUE ELSE h.polyOK) /\ Cardinality(Held(h1)) <= nc - 1,
+      ex == IF h1.rel = {} THEN 0 ELSE h1.extra
+  IN [h1 EXCEPT !.nc = nc, !.extra = ex,
+                !.polyOK = (IF rebuild THEN TRUE ELSE h.polyOK) /\ Cardinality(Held(h1)) + ex <= nc - 1,
                 !.quiet = IF ev.e = "Gen" /\ AllReleased(h1) THEN Min(h.quiet + ev.us, 100000000) ELSE 0]
 
 ---------------------------------------------------------------------------
@@ -272,7 +275,13 @@ C05Fails(h, s) ==
 \* C06: pre/post snapshots around an accepted or rejected NoteOn of pair p with a sounding instrument
 IdleChans(s) == { ci \in DOMAIN s.ch : ci - 1 < s.nc /\ s.ch[ci].u = <<>> }
 LocsOn(s, ci) == { <<s.ch[ci].u[ui].m, s.ch[ci].u[ui].n>> : ui \in DOMAIN s.ch[ci].u }
-KeyDownLocs(s, ci) == { <<s.ch[ci].u[ui].m, s.ch[ci].u[ui].n>> : ui \in { j \in DOMAIN s.ch[ci].u : s.ch[ci].u[j].s = 0 } }
+\* users of chip channel ci whose key is still down: an active note of that MIDI channel occupies ci
+NoteOccupies(s, m, n, c) ==
+  LET mi == McOf(s, m) IN
+  mi # 0 /\ \E ni \in DOMAIN s.mc[mi].notes :
+     s.mc[mi].notes[ni].n = n /\ \E pi \in DOMAIN s.mc[mi].notes[ni].ph : s.mc[mi].notes[ni].ph[pi].c = c
+KeyDownLocs(s, ci) == { <<s.ch[ci].u[ui].m, s.ch[ci].u[ui].n>> : ui \in
+                        { j \in DOMAIN s.ch[ci].u : NoteOccupies(s, s.ch[ci].u[j].m, s.ch[ci].u[j].n, ci - 1) } }
 AllLocs(s) == UNION { LocsOn(s, ci) : ci \in DOMAIN s.ch }
 PlacedOn(s, p) == { ci \in DOMAIN s.ch : p \in KeyDownLocs(s, ci) }
 C06Fails(pre, post, p, r, blank) ==
@@ -282,7 +291,7 @@ C06Fails(pre, post, p, r, blank) ==
     THEN {"rejected" : x \in IF r = 1 THEN {} ELSE {1}} \cup
          {"displaced" : x \in IF \A ci \in DOMAIN pre.ch : (LocsOn(pre, ci) \ {p}) \subseteq LocsOn(post, ci) THEN {} ELSE {1}} \cup
          {"notidle" : x \in IF \A ci \in PlacedOn(post, p) : (LocsOn(pre, ci) \ {p}) = {} THEN {} ELSE {1}}
-    ELSE IF \E ci \in DOMAIN pre.ch : Len(pre.ch[ci].u) = 1 /\ pre.ch[ci].u[1].s # 0
+    ELSE IF \E ci \in DOMAIN pre.ch : Len(pre.ch[ci].u) = 1 /\ KeyDownLocs(pre, ci) = {}
          THEN {"keydown-evicted" : x \in
                  IF \A ci \in DOMAIN pre.ch : (KeyDownLocs(pre, ci) \ {p}) \subseteq AllLocs(post) THEN {} ELSE {1}}
          ELSE {}
